@@ -451,3 +451,15 @@ def contracts():
     c = _c11.install_slots_contract()
     c.prop = "C12"
     return _c12_base5() + [c]
+
+
+# the Parameter a class-level assignment goes through: the nearest class in the MRO that declares one
+# (verified for C13)
+_c12_base_gpd = contracts
+
+
+def contracts():
+    from contracts import c13 as _c13
+    c = _c13.get_param_descriptor_contract()
+    c.prop = "C12"
+    return _c12_base_gpd() + [c]
